@@ -20,10 +20,58 @@ def path_facts(fn, ctx, path):
     return facts
 
 
+def key_facts(k, truth):
+    """facts that follow from boolean key k having value `truth` (key-level counterpart of Ctx.cmp_fact); [] if none can be named"""
+    from .expr import NEG, SWAP
+    if not isinstance(k, tuple):
+        return []
+    if k[0] == "cast" and len(k) == 3:
+        return key_facts(k[2], truth)
+    if k[0] == "un" and k[1] == "!":
+        return key_facts(k[2], not truth)
+    if k[0] == "op" and len(k) == 4 and ((k[1] == "&&" and truth) or (k[1] == "||" and not truth)):
+        return key_facts(k[2], truth) + key_facts(k[3], truth)
+    if k[0] == "op" and len(k) == 4 and k[1] in NEG:
+        op, L, R = k[1], k[2], k[3]
+        if not truth:
+            op = NEG[op]
+        if op in (">", ">="):
+            op, L, R = SWAP[op], R, L
+        if op in ("==", "!=") and repr(L) > repr(R):
+            L, R = R, L
+        return [(op, L, R)]
+    return [("true" if truth else "false", k)]
+
+
+def _holds(facts, g):
+    """is fact g a consequence of `facts` (syntactically present, or entailed for relational facts)?"""
+    from .entail import entails
+    if g in facts:
+        return True
+    if g[0] in ("<", "<=", "==", "!="):
+        try:
+            return entails(facts, g)
+        except Exception:
+            return False
+    return False
+
+
 def feasible(facts):
-    facts = list(facts)
+    facts = list(derived_equalities(facts))
     for i, f in enumerate(facts):
-        if f[0] in ("<", "<=", "==", "!=") and contradicts(facts[:i] + facts[i + 1:], f):
+        rest = facts[:i] + facts[i + 1:]
+        if f[0] in ("<", "<=", "==", "!=") and contradicts(rest, f):
+            return False
+        # not(A && B) is impossible when A and B both hold;  (A || B) is impossible when both are refuted
+        if f[0] == "false" and isinstance(f[1], tuple) and f[1][0] == "op" and f[1][1] == "&&":
+            conj = key_facts(f[1], True)
+            if conj and all(_holds(rest, g) for g in conj):
+                return False
+        if f[0] == "true" and isinstance(f[1], tuple) and f[1][0] == "op" and f[1][1] == "||":
+            disj = key_facts(f[1], False)
+            if disj and all(_holds(rest, g) for g in disj):
+                return False
+        if f[0] in ("true", "false") and (("false" if f[0] == "true" else "true"), f[1]) in rest:
             return False
     return True
 
